@@ -319,7 +319,7 @@ def dot_body(cfg):
         exp2 = sorted((ids2[p], ids2[c]) for p in pre2 if p != n for c in (children[p] + ([n] if p == s else [])))
         if sorted(got2) != exp2:
             return {"why": "widened iteration: edges", "got": sorted(got2), "exp": exp2}
-    if not unique and not custom:
+    if not unique:
         with warnings.catch_warnings():
             warnings.simplefilter("ignore")
             from anytree.dotexport import RenderTreeGraph
@@ -348,7 +348,7 @@ def mermaid_body(cfg):
         kw = dict(graph="flowchart", name="LR", options=["%% opt", "classDef x fill:#f96;"], indent=indent,
                   nodefunc=lambda nd: '("%s")' % nd.i, edgefunc=lambda a, b: "--%d%d-->" % (a.i, b.i))
         if variant[3]:
-            kw["nodenamefunc"] = lambda nd: "id_%d" % nd.i
+            kw["nodenamefunc"] = lambda nd: "id_%d%s" % (nd.i, getattr(nd, "suffix", ""))
     exporter = MermaidExporter(nodes[s], filter_=filt, stop=stop, maxlevel=maxlevel, **kw)
     lines = list(exporter)
     declared, edges = admitted_sets(parent, children, s, sf, ff, maxlevel)
@@ -385,6 +385,17 @@ def mermaid_body(cfg):
                 "exp": exp_edges, "got": sorted(body[len(declared):]), "stop": stopm, "filt": filtm}
     if list(exporter) != lines:
         return {"why": "second iteration differs (identifiers not stable)", "lines": lines}
+    if "nodenamefunc" in kw:
+        # a custom nodenamefunc is consulted on every iteration: its results appear verbatim also after node state changed
+        for nd in nodes:
+            nd.suffix = "x"
+        lines3 = list(exporter)
+        for nd in nodes:
+            del nd.suffix
+        body3 = lines3[1 + (2 if custom else 0):]
+        for x, line in zip(declared, body3):
+            if not line.startswith(ind + "id_%dx" % x):
+                return {"why": "nodenamefunc result of a later iteration not verbatim (stale identifier)", "line": line, "lines": lines3}
     if "nodenamefunc" not in kw:
         # identifiers stay distinct and stable when a later iteration of the SAME exporter sees more nodes
         exporter.maxlevel = None
